@@ -129,7 +129,7 @@ def gen_filters(rng, spec):
 
 
 KINDS = ["to_pandas"] * 4 + ["slice"] * 2 + ["index", "slice_only", "slice_stats", "iter", "head", "statistics", "count", "columns", "pickle", "schema_text",
-                                                "stats_fn", "sorted_cols", "sorted_cols", "filter_rgs", "meta"]
+                                                "stats_fn", "sorted_cols", "sorted_cols", "filter_rgs", "meta", "copy", "deepcopy"]
 
 
 def gen_op(rng, spec, kind=None):
@@ -137,7 +137,7 @@ def gen_op(rng, spec, kind=None):
     op = {"op": kind}
     cols = list(spec["cols"]) + (["p"] if spec["kind"] == "hive" else []) + list(spec.get("cats", []))
     nrg = n_row_groups(spec)
-    if kind in ("to_pandas", "slice", "index", "iter", "head", "pickle"):
+    if kind in ("to_pandas", "slice", "index", "iter", "head", "pickle", "copy", "deepcopy"):
         if rng.random() < 0.5:
             op["columns"] = sorted(rng.sample(cols, rng.randint(1, len(cols))))
         if rng.random() < 0.5 and (spec["kind"] != "file" or spec["numeric"]):
@@ -564,9 +564,9 @@ def fixed_ops(spec):
     ops = [{"op": "to_pandas"}, {"op": "to_pandas", "columns": spec["cols"][:2], "index": False}, {"op": "to_pandas", "columns": spec["cols"][-1:]},
            {"op": "slice", "i": 0, "j": 1}, {"op": "slice_only", "i": 1, "j": None}, {"op": "index", "i": -1}, {"op": "iter"},
            {"op": "head", "n": 3}, {"op": "statistics"}, {"op": "count"}, {"op": "columns"}, {"op": "pickle"},
-           {"op": "slice_stats", "i": 0, "j": 1}, {"op": "schema_text"}, {"op": "sorted_cols"}, {"op": "stats_fn"}, {"op": "meta"}]
+           {"op": "slice_stats", "i": 0, "j": 1}, {"op": "schema_text"}, {"op": "sorted_cols"}, {"op": "stats_fn"}, {"op": "meta"}, {"op": "copy"}]
     for c in sorted(spec["numeric"])[:2]:
-        ops[-3] = {"op": "sorted_cols", "filters": [[c, ">=", spec["numeric"][c][1]]]}
+        ops[-4] = {"op": "sorted_cols", "filters": [[c, ">=", spec["numeric"][c][1]]]}
         ops[2] = {"op": "to_pandas", "filters": [[c, ">=", spec["numeric"][c][1]]]}
         ops[9] = {"op": "count", "filters": [[c, "<", spec["numeric"][c][1]]]}
         ops[6] = {"op": "iter", "filters": [[c, "!=", spec["numeric"][c][0]]]}
@@ -598,6 +598,8 @@ FIXED_OPS = [
     {"op": "sorted_cols"},
     {"op": "filter_rgs", "filters": [["f", "<", 40.0], ["i", ">=", 0]]},
     {"op": "meta"},
+    {"op": "copy", "columns": ["i"]},
+    {"op": "deepcopy", "columns": ["s"], "filters": [["i", "<=", 25]]},
 ]
 
 
@@ -651,7 +653,7 @@ def footprint_jobs(ctx, datasets, rng, quick):
     for di, (spec, path) in enumerate(datasets):
         ops = fixed_ops(spec)
         ops += [gen_op(rng, spec) for _ in range(2 if quick else 6)]
-        fresh_ops = ops if (di == 0 or not quick) else [o for o in ops if o["op"] not in ("stats_fn", "meta", "filter_rgs") and o != {"op": "sorted_cols"}]
+        fresh_ops = ops if (di == 0 or not quick) else [o for o in ops if o["op"] not in ("stats_fn", "meta", "filter_rgs", "deepcopy") and o != {"op": "sorted_cols"}]
         for i in range(0, len(fresh_ops), 3):
             jobs.append(mk(path, "fresh", fresh_ops[i:i + 3]))
             owner.append(di)
@@ -944,7 +946,7 @@ def forced_search(ctx, datasets, rng, quick, budget=None):
         cand = []
         for a in pool:
             if a["op"] in ("to_pandas", "iter", "head", "slice", "count", "statistics", "pickle", "index", "slice_only", "slice_stats",
-                           "sorted_cols", "stats_fn", "filter_rgs", "meta", "schema_text"):
+                           "sorted_cols", "stats_fn", "filter_rgs", "meta", "schema_text", "copy", "deepcopy"):
                 cand.append(a)
         rng.shuffle(cand)
         for a in cand:
@@ -1129,14 +1131,15 @@ def storm_search(ctx, datasets, rng, quick, share=None):
     for n_, (spec, path, solo) in enumerate(datasets):
         writers = [{"op": "count", "filters": [["t", ">", {"dt": "2020-01-01T07:00"}]]}, {"op": "statistics"}, {"op": "slice_only", "i": 0, "j": 1},
                    {"op": "head", "n": 3, "columns": ["i"]}, {"op": "to_pandas", "columns": ["f"], "filters": [["f", ">", 5.0]]},
-                   {"op": "index", "i": 0, "columns": ["i"]}, {"op": "sorted_cols", "filters": [["i", ">", 10]]}, {"op": "schema_text"}]
+                   {"op": "index", "i": 0, "columns": ["i"]}, {"op": "sorted_cols", "filters": [["i", ">", 10]]}, {"op": "schema_text"},
+                   {"op": "copy", "columns": ["i"]}]
         readers = [{"op": "sorted_cols"}, {"op": "columns"}, {"op": "to_pandas"}, {"op": "statistics"}, {"op": "count", "filters": [["t", "<=", {"dt": "2020-01-02T01:00"}]]},
                    {"op": "pickle"}, {"op": "head", "n": 4}, {"op": "iter", "columns": ["i", "s"]},
                    {"op": "to_pandas", "columns": ["s", "i"], "filters": [["i", "<=", spec.get("offsets", [0, 1])[1]]]}]
         if spec["kind"] == "file":
             fo = fixed_ops(spec)
-            writers = [fo[4], fo[8], fo[9], fo[7], fo[5], fo[2], fo[-3], fo[-4]]
-            readers = [fo[-3], fo[10], fo[0], fo[8], fo[9], fo[11], fo[7], fo[6], fo[1]]
+            writers = [fo[4], fo[8], fo[9], fo[7], fo[5], fo[2], fo[-4], fo[-5], fo[-1]]
+            readers = [fo[-4], fo[10], fo[0], fo[8], fo[9], fo[11], fo[7], fo[6], fo[1]]
         pairs = [(a, b) for a in writers for b in readers]
         rng.shuffle(pairs)
         # the cheap derived-handle operation against the small readers always; statistics use through the module-level
@@ -1178,7 +1181,7 @@ def stress(ctx, datasets, rng, quick, r0=0, r1=None):
         else:
             lists = [[gen_op(rng, spec) for _ in range(rng.choice([1, 2, 3]))] for _ in range(nt)]
             # make sure derived handles and filtered reads meet plain reads in every round
-            lists[0][0] = gen_op(rng, spec, rng.choice(["slice", "iter", "head", "index"]))
+            lists[0][0] = gen_op(rng, spec, rng.choice(["slice", "iter", "head", "index", "copy"]))
             lists[1][0] = gen_op(rng, spec, "to_pandas")
             if "t" in spec.get("cols", []) and spec["kind"] != "file":
                 h = rng.randrange(1, max(2, spec["n"]))
